@@ -61,6 +61,29 @@ theorem C07_condition_awaitable (cfg : Cfg) (sc : Script) (kd1 kd2 : Async.Kinds
   exact ⟨h1.1.trans h2.1.symm, h1.2.1.trans h2.2.1.symm, h1.2.2.1.trans h2.2.2.1.symm, h1.2.2.2.trans h2.2.2.2.symm⟩
 
 
+/-- **Stage barrier.**  Every coroutine callback and condition is awaited to completion before the
+next stage starts: whenever a stage (`gather`) returns — normally or with an exception — the trace it
+appended contains as many `done` as `call` items, i.e. everything it started has finished; for every
+interpreter `sub` of awaited triggers with the same property, every script, every kind assignment. -/
+theorem C07_stage_barrier (sub : Sub) (hsub : SubBal sub) (sc : Script) (kd : Async.Kinds) (x : Ctx)
+    (js : List Async.Job) (s : St) : RBal s.log (Async.gather sub sc kd x js s) :=
+  gather_bal hsub kd x js s
+
+/-- ... and so does every awaited trigger and every whole history (no callback outlives its trigger),
+for every configuration, script, queue mode and fuel. -/
+theorem C07_history_barrier (cfg : Cfg) (sc : Script) (kd : Async.Kinds) (qm qmax fuel : Nat) (h : List Cmd) (s s' : St)
+    (hr : Async.runHistory sc kd cfg qm qmax fuel h s = some s') : BalL s.log s'.log :=
+  runHistory_bal kd qmax fuel h s s' hr
+
+/-- **Callbacks of one stage are started in registration order**: the `call` items a stage of
+command-free callbacks appends are exactly its callbacks, in list order, whatever their kinds and
+whatever they return or raise. -/
+theorem C07_stage_starts_in_order (sub : Sub) (sc : Script) (kd : Async.Kinds) (x : Ctx) (js : List Async.Job) (s s' : St)
+    (hq : ∀ j ∈ js, ∀ k, (sc j.cb k).cmds = [])
+    (h : (Async.gather sub sc kd x js s).state? = some s') :
+    ∃ seg, s'.log = s.log ++ seg ∧ callsOf seg = js.map fun j => (j.slot, j.cb) :=
+  gather_calls js s s' hq h
+
 /-! ### the `gather` finding: the full-strength statement is false
 
 `before = [1, 2]`, callback 1 raises.  A synchronous machine stops the stage at the raise; `gather` has
